@@ -267,6 +267,32 @@ def run(tier, seed):
                              ['ViewIsFunctionOfExports', 'IntrospectableIffAncestor', 'ManagedAreBeneath'], 'c16', {'big': True},
                              'random/9 paths', nproc=8)
     chk.sample({'recorded': [a for a, s in batch[0]][:5]})
+    # an export that FAILS (a readable property that was never given a value cannot be put into the announcement): the
+    # tree is what the successful exports imply - the object is not there, neither for calls nor in its parent's listing
+    class Unset(objects.DBusObject):
+        dbusInterfaces = [I1]
+        p1 = objects.DBusProperty('p1')
+
+        def dbus_Ping1(self):
+            return 'pong'
+    drv = TreeDriver(UNI)
+    drv.apply('Export', (('a',), 'K1'))
+    before = drv.project()['view']
+    failed = False
+    try:
+        drv.h.exportObject(Unset('/a/b'))
+    except Exception:
+        failed = True
+    try:
+        after = drv.project()['view']
+        changed = sorted(k for k in dict(after) if dict(after)[k] != dict(before).get(k))
+    except Exception as ex:
+        changed = ['(asking the tree now raises %s)' % type(ex).__name__]
+    chk.traces += 1
+    if failed and changed:
+        chk.violation('an export that raised left the object visible: the view of the tree changed at %s' % (changed,),
+                      dict(kind='case', module='c16'))
+
     # canary: drop one child from a recorded introspection
     tr = [list(x) for x in rerecord({'big': True}, [('Export', (('a',), 'K1')), ('Export', (('a', 'b'), 'K2'))])]
     done = False
